@@ -5,8 +5,8 @@ from typing_extensions import List, Any, Optional
 import operator
 
 import sqlalchemy.inspection
-from sqlalchemy import and_, or_, select, Select, func, literal, not_ as sa_not
-from sqlalchemy.orm import Session
+from sqlalchemy import and_, or_, select, Select, func, literal, true, not_ as sa_not
+from sqlalchemy.orm import Session, aliased
 
 from ..entity_query_language.symbolic import (
     SymbolicExpression,
@@ -403,6 +403,8 @@ class EQLTranslator:
 
     sql_query: Optional[Select] = None
     join_manager: JoinManager = field(default_factory=JoinManager)
+    variable_aliases: dict[int, Any] = field(default_factory=dict)
+    or_depth: int = 0
 
     @property
     def quantifier(self) -> SymbolicExpression:
@@ -493,7 +495,11 @@ class EQLTranslator:
         :param query: EQL query
         :return: SQL expression or None if all parts are handled via JOINs.
         """
-        parts = self._collect_logical_parts(query)
+        self.or_depth += 1
+        try:
+            parts = self._collect_logical_parts(query)
+        finally:
+            self.or_depth -= 1
         return self._combine_logical_parts(parts, or_)
 
     def _collect_logical_parts(self, query: Any) -> List[Any]:
@@ -575,7 +581,15 @@ class EQLTranslator:
         both_attributes = isinstance(query.left, Attribute) and isinstance(
             query.right, Attribute
         )
-        return is_equality and both_attributes
+        # a JOIN restricts every row: only usable for a condition that is not below an or_,
+        # and only for relationships accessed directly on the two variables
+        return (
+            is_equality
+            and both_attributes
+            and self.or_depth == 0
+            and isinstance(query.left._child_, Variable)
+            and isinstance(query.right._child_, Variable)
+        )
 
     def _handle_attribute_equality_join(self, query: Comparator) -> Optional[bool]:
         """
@@ -612,22 +626,24 @@ class EQLTranslator:
         if anchor_dao is None:
             raise MissingDAOError("Selected variable has no DAO class")
 
-        if left_dao is anchor_dao:
-            target_dao, target_fk, anchor_fk = right_dao, right_fk, left_fk
+        # the variable that is not the selected one is joined, through its own alias;
+        # if it already is a FROM element the condition is translated as a comparison
+        selected_variable = self.select_like.selected_variable
+        if left_leaf is selected_variable:
+            target_leaf, target_dao, target_fk, anchor_fk = right_leaf, right_dao, right_fk, left_fk
+        elif right_leaf is selected_variable:
+            target_leaf, target_dao, target_fk, anchor_fk = left_leaf, left_dao, left_fk, right_fk
         else:
-            target_dao, target_fk, anchor_fk = left_dao, left_fk, right_fk
+            return None
+        if id(target_leaf) in self.variable_aliases:
+            return None
 
-        if issubclass(target_dao, anchor_dao) or issubclass(anchor_dao, target_dao):
-            raise UnsupportedQueryTypeError(
-                f"Cannot join {anchor_dao.__name__} with {target_dao.__name__}: "
-                "a join of the selected class with itself (or with a class of its own "
-                "inheritance hierarchy) is not supported."
-            )
-
-        if not self.join_manager.is_table_joined(target_dao):
-            onclause = target_fk == anchor_fk
-            self.sql_query = self.sql_query.join(target_dao, onclause=onclause)
-            self.join_manager.add_table_join(target_dao)
+        self._join_variable(
+            target_leaf,
+            target_dao,
+            lambda entity: getattr(entity, target_fk.key) == anchor_fk,
+        )
+        self.join_manager.add_table_join(target_dao)
 
         return True
 
@@ -711,7 +727,41 @@ class EQLTranslator:
         if current_dao is None:
             raise MissingDAOError(f"No DAO class found for {base_class}.")
 
+        variable = AttributeChainResolver().extract_leaf_variable(query)
+        current_dao = self._entity_of_variable(variable, current_dao)
+
         return self._walk_attribute_chain(current_dao, attribute_names)
+
+    def _entity_of_variable(self, variable: Any, dao_class: type) -> Any:
+        """
+        Get the FROM element that stands for a variable: the DAO class itself for the
+        selected variable, a dedicated alias of the DAO class for every other variable,
+        so that two variables of one class do not denote the same row.
+
+        :param variable: The EQL variable
+        :param dao_class: The DAO class of the variable's type
+        :return: The DAO class or its alias for this variable
+        """
+        if variable is self.select_like.selected_variable:
+            return dao_class
+        if id(variable) not in self.variable_aliases:
+            # every row of the variable's class (and of its subclasses) combines with every other row
+            self._join_variable(variable, dao_class, lambda entity: true())
+        return self.variable_aliases[id(variable)]
+
+    def _join_variable(self, variable: Any, dao_class: type, onclause: Any) -> Any:
+        """
+        Add the alias that stands for a variable to the FROM clause.
+
+        :param variable: The EQL variable (not the selected one, not joined yet)
+        :param dao_class: The DAO class of the variable's type
+        :param onclause: Function from the new alias to the ON clause of its JOIN
+        :return: The alias
+        """
+        entity = aliased(dao_class, flat=True)
+        self.variable_aliases[id(variable)] = entity
+        self.sql_query = self.sql_query.join(entity, onclause=onclause(entity))
+        return entity
 
     def _collect_attribute_chain(self, query: Attribute) -> List[str]:
         """
